@@ -954,6 +954,16 @@ func (c *FnCtx) frameOblige(st *State, kind, obj, field string, structT types.Ty
 	if c.frameExtraAllow != "" {
 		allowed = append(allowed, c.frameExtraAllow)
 	}
+	if kind == "field" && structT != nil {
+		fb, _ := c.fieldArr(structT, field)
+		for _, m := range c.con.Modifies {
+			if m.Kind == "subtree" {
+				if _, ok := c.subtreeBases(c.synthResultType(m.GoFn, c.pkg))[fb]; ok {
+					return // a field of a struct type of the subtree: allowed at type level
+				}
+			}
+		}
+	}
 	for _, m := range c.con.Modifies {
 		switch {
 		case m.Kind == "field" && kind == "field" && m.Fld == field:
